@@ -313,7 +313,8 @@ pub fn run_check(def: &CheckDef, cfg: &RunConfig) -> i32 {
         ("wall_s".to_string(), J::Num((wall * 100.0).round() / 100.0)),
         ("violations".to_string(), J::Int(new_violations as i64)),
     ]);
-    let ev_dir = format!("{}/evidence", cfg.verif_dir);
+    // (runs against a scratch copy of the repository - mutation self-tests - must not overwrite the evidence of /repo)
+    let ev_dir = std::env::var("VERIF_EVIDENCE_DIR").unwrap_or_else(|_| format!("{}/evidence", cfg.verif_dir));
     let _ = std::fs::create_dir_all(&ev_dir);
     if let Err(e) = std::fs::write(format!("{}/{}.json", ev_dir, def.id), evidence.render()) {
         eprintln!("HARNESS-ERROR cannot write evidence: {e}");
